@@ -30,24 +30,31 @@ ENGINE = "Steps"
 DESIGN_REF = "DESIGN.md §5.3"
 TECHNIQUE = (
     "Lean 4 proofs over arbitrary real inner-product spaces (sub-gradient KKT conditions, proximal-map contracts): "
-    "fixed points of the 8 documented step maps, PGM monotonicity / linear rate / convergence, FISTA momentum, ADMM Lyapunov "
-    "descent (single constraint); manufactured problems with exact dyadic minimisers replayed on the real optimisers"
+    "fixed points of the 8 documented step maps; PGM monotonicity / linear rate / convergence; FISTA momentum and O(1/k^2) "
+    "objective bound; ADMM Lyapunov descent for N constraints with relaxation alpha in (0,2), residuals -> 0 and convergence "
+    "of the iterates for strongly convex f from every start; PDHG Fejer monotonicity and residuals -> 0; Lyapunov functions "
+    "of proximal and linearized ADMM under the documented parameter constraints; manufactured problems with exact dyadic "
+    "minimisers replayed on the real optimisers, every one-step inequality evaluated along the real trajectories"
 )
 LEVEL_TEXT = (
     "Lean theorems: a KKT point of the documented problem is a fixed point of the documented iteration of ADMM (N constraints, "
     "any alpha), LinearizedADMM, ProximalADMM (general B, c and defaults), NonLinearPADMM, PDHG (linear / non-linear C), PGM, "
-    "AcceleratedPGM; KKT points minimise f + g∘C; one PGM step with L >= Lipschitz constant does not increase the distance to "
-    "any minimiser and decreases the objective; linear rate and convergence from every start for strongly convex f (all "
-    "iteration counts); FISTA t_k >= t_0 + k/2; ADMM Lyapunov function decreases along the documented iteration for N "
-    "constraints, alpha = 1 (all trajectories). Tie: fixed-point residuals at manufactured exact optima and monotone "
-    "quantities along trajectories of the real classes."
+    "AcceleratedPGM; KKT points minimise f + g∘C; PGM with L >= Lipschitz constant: distance to any minimiser and objective "
+    "non-increasing, linear rate and convergence from every start for strongly convex f; FISTA t_k >= t_0 + k/2 and "
+    "F(x_k) - F(x*) <= 2L|x_0 - x*|^2/(k+1)^2; ADMM, N constraints, relaxation alpha: W+ + a(2-a)Σρ|Cx+ - z|^2 + 2am|x+ - x*|^2 <= W "
+    "(and Boyd's V for alpha = 1), hence for 0 < alpha < 2 from EVERY start norm_primal_residual() -> 0, |z+ - z| -> 0, and for "
+    "strongly convex f minimizer() -> x*; PDHG (alpha = 1, linear C, tau sigma |C|^2 < 1): Fejer monotone in the M-metric from "
+    "every state, residual accessors -> 0; ProximalADMM (mu >= |A|^2, nu >= |B|^2) and LinearizedADMM (mu |C|^2 <= nu): "
+    "Lyapunov function non-increasing after the first step from every start, residual accessors -> 0. Tie: fixed-point "
+    "residuals at manufactured exact optima and every one of these one-step inequalities along trajectories of the real classes."
 )
 LEVEL_NOTE = (
-    "Outside the theorems (numerical exercise only): convergence of ADMM / LinearizedADMM / ProximalADMM / NonLinearPADMM / "
-    "PDHG / AcceleratedPGM iterates to the minimiser from arbitrary starts; Lyapunov descent under relaxation alpha != 1; "
-    "adaptive step-size policies (C16); inexact "
-    "sub-problem solvers (C10/C14). Trusted: Lean kernel + Mathlib; real-number idealisation; prox maps / operators enter "
-    "through contracts (IsProx = argmin for convex functionals; adjoint identity); step maps tied to the code by C11."
+    "Outside the theorems (numerical exercise only): convergence of the ITERATES of ADMM for merely convex f, of "
+    "LinearizedADMM / ProximalADMM / PDHG / AcceleratedPGM (residuals / objective are proved to converge, the iterates only "
+    "stay bounded); PDHG with alpha != 1; NonLinearPADMM and non-linear PDHG beyond fixed points (non-convex); adaptive "
+    "step-size policies (C16); inexact sub-problem solvers (C10/C14). Trusted: Lean kernel + Mathlib; real-number "
+    "idealisation; prox maps / operators enter through contracts (IsProx = argmin for convex functionals; adjoint identity; "
+    "operator-norm bounds as hypotheses); step maps tied to the code by C11."
 )
 PROP_MODULES = ["Scico.Props.C03"]
 EXTRA_TARGETS = ["Drv.Steps"]
@@ -72,7 +79,8 @@ RULE = (
 ASSUMPTIONS = [
     "IsProx contract of the proximal maps (C02), adjoint identity of the operators (C01), exactness of the x-update solver (C10)",
     "L0 >= Lipschitz constant is computed by numpy (largest eigenvalue) with a dyadic safety margin",
-    "convergence of the ADMM family / PDHG / FISTA iterates is exercised numerically only (fixed iteration budget)",
+    "convergence of the iterates of LinearizedADMM / ProximalADMM / PDHG / FISTA (and ADMM for merely convex f) is exercised "
+    "numerically only (fixed iteration budget); their residuals / objective gaps are proved to converge",
 ]
 
 TOL = 1e-9
@@ -288,7 +296,7 @@ def manufacture(rng, alg):
         tau = _P(rng, [0.5, 0.25, 1.0])
         sigma = float(np.floor(_P(rng, [0.9, 0.5]) / (tau * c2) * 256) / 256) or 1.0 / 256
         recipe = {"alg": "pdhg", "cplx": False, "xshape": [n], "C": C, "nl": rec, "f": half_loss(xs + J.T @ y), "g": g,
-                  "tau": tau, "sigma": sigma, "alpha": _P(rng, [1.0, 1.0, 0.5, 0.0]), "x0": xs.tolist(), "z0": y.tolist()}
+                  "tau": tau, "sigma": sigma, "alpha": _P(rng, [1.0, 1.0, 1.0, 1.0, 0.5, 0.0]), "x0": xs.tolist(), "z0": y.tolist()}
         kkt = {"x": xs.tolist(), "xold": xs.tolist(), "z": y.tolist(), "zold": y.tolist()}
         return recipe, kkt, xs
     if alg in ("pgm", "apgm"):
@@ -360,7 +368,7 @@ def objective_of(b, x):
     return float(b.solver.f(x)) + float(b.solver.g(x))
 
 
-def trajectory_case(ctx, recipe, kkt, xs, rng, K):
+def trajectory_case(ctx, recipe, kkt, xs, rng, K, check_conv=True):
     """(b) monotone quantities / convergence along a real trajectory from a random start"""
     alg = recipe["alg"]
     r = dict(recipe)
@@ -377,10 +385,16 @@ def trajectory_case(ctx, recipe, kkt, xs, rng, K):
     bad = None
     dists, objs, Vs, ts = [d0], [], [], []
     lip = recipe.get("_lip")
+    states = [b.read()]  # full public state along the trajectory (first MONITOR steps) for the Lyapunov-type quantities
+    fobjs = []
     for k in range(K):
         if alg == "pgm":
             objs.append(objective_of(b, s.x))
         s.step()
+        if k < MONITOR:
+            states.append(b.read())
+            if alg == "apgm":
+                fobjs.append(objective_of(b, s.x))
         x = np.asarray(G.flat(s.x, False))
         dists.append(_dist(x, xs))
         if alg == "apgm":
@@ -418,8 +432,11 @@ def trajectory_case(ctx, recipe, kkt, xs, rng, K):
                        "before": Vs[k - 1], "after": Vs[k]}
                 break
         ctx.count("monotone:admm-lyapunov-N%d" % len(recipe["C"]))
-    # numerical convergence (outside the theorems except PGM): the distance must have dropped substantially
     if bad is None:
+        bad = lyapunov_monitors(ctx, recipe, kkt, xs, states, fobjs, b)
+    # numerical convergence (proved for PGM and - strongly convex f - ADMM; otherwise outside the theorems): the distance
+    # must have dropped substantially
+    if bad is None and check_conv:
         target = 0.05 * d0 + 1e-7
         if alg == "pgm":
             target = float("inf")  # the proved rate bound above is the criterion
@@ -438,6 +455,114 @@ def trajectory_case(ctx, recipe, kkt, xs, rng, K):
     return d0
 
 
+MONITOR = 60  # number of leading steps whose full state is recorded for the Lyapunov-type inequalities
+
+
+def _sq(v):
+    v = np.asarray(v, dtype=np.float64)
+    return float(v @ v)
+
+
+def lyapunov_monitors(ctx, recipe, kkt, xs, states, fobjs, b):
+    """the one-step inequalities of the round-2 theorems evaluated on consecutive states of the REAL trajectory
+    (C03_admm_relax_lyapunov, C03_pdhg_fejer, C03_padmm_lyapunov, C03_ladmm_lyapunov, C03_fista_rate); every inequality is
+    checked from the first iterate on (k >= 1: states produced by step(), the hypothesis of the theorems), PDHG from k = 0.
+    Returns a failing-input dict or None."""
+    alg = recipe["alg"]
+    n = len(xs)
+    tol = lambda v: 1e-8 * (1.0 + abs(v))  # noqa: E731
+    A_ = lambda k: np.asarray(k, dtype=np.float64)  # noqa: E731
+    if alg == "admm" and 0.0 < recipe["alpha"] < 2.0:
+        al = float(recipe["alpha"])
+        Ms = [np.asarray(G.op_dense(c, [n])[0], dtype=np.float64) for c in recipe["C"]]
+        rho = [float(r) for r in recipe["rho"]]
+        m = 2.0 * float(recipe["f"]["s"])  # f = s ||x - y0||^2 : its gradient is strongly monotone with modulus 2 s
+        zs = [A_(z) for z in kkt["z"]]
+        us = [A_(u) for u in kkt["u"]]
+
+        def W(st):
+            return sum(r * _sq(A_(z) + A_(u) - zz - uu) for r, z, u, zz, uu in zip(rho, st["z"], st["u"], zs, us))
+
+        for k in range(1, len(states) - 1):
+            s0, s1 = states[k], states[k + 1]
+            x1 = A_(s1["x"])
+            Q = sum(r * _sq(M @ x1 - A_(z)) for r, M, z in zip(rho, Ms, s0["z"]))
+            lhs = W(s1) + al * (2.0 - al) * Q + 2.0 * al * m * _sq(x1 - xs)
+            if lhs > W(s0) + tol(W(s0)):
+                return {"quantity": "relaxed-ADMM function W (N=%d, alpha=%g): W+ + a(2-a)Q + 2 a m |x+-x*|^2 <= W" % (len(rho), al),
+                        "k": k, "lhs": lhs, "W_before": W(s0), "W_after": W(s1), "Q": Q}
+            # ||z+ - z|| <= alpha ||C x+ - z||  and  ||C x+ - z+|| <= (1 + alpha) ||C x+ - z||   (per constraint)
+            for r, M, z0, z1 in zip(rho, Ms, s0["z"], s1["z"]):
+                q = np.sqrt(_sq(M @ x1 - A_(z0)))
+                if np.sqrt(_sq(A_(z1) - A_(z0))) > al * q + tol(q) or np.sqrt(_sq(M @ x1 - A_(z1))) > (1 + al) * q + tol(q):
+                    return {"quantity": "ADMM residual bounds |z+-z| <= a|Cx+-z|, |Cx+-z+| <= (1+a)|Cx+-z|", "k": k, "q": q}
+        ctx.count("monotone:admm-relaxed-W-alpha%s" % ("=1" if al == 1.0 else "!=1"))
+    if alg == "pdhg" and recipe.get("nl") is None and recipe["alpha"] == 1.0:
+        M = np.asarray(G.op_dense(recipe["C"], [n])[0], dtype=np.float64)
+        tau, sig = float(recipe["tau"]), float(recipe["sigma"])
+        zs = A_(kkt["z"])
+
+        def Mn(a, bb):
+            return _sq(a) / tau - 2.0 * float((M @ a) @ bb) + _sq(bb) / sig
+
+        for k in range(0, len(states) - 1):
+            s0, s1 = states[k], states[k + 1]
+            a0, b0 = A_(s0["x"]) - xs, A_(s0["z"]) - zs
+            a1, b1 = A_(s1["x"]) - xs, A_(s1["z"]) - zs
+            lhs = Mn(a1, b1) + Mn(a0 - a1, b0 - b1)
+            if lhs > Mn(a0, b0) + tol(Mn(a0, b0)):
+                return {"quantity": "PDHG Fejer monotonicity in the M-metric (alpha=1)", "k": k, "lhs": lhs, "M_before": Mn(a0, b0),
+                        "M_after": Mn(a1, b1)}
+        ctx.count("monotone:pdhg-fejer-M")
+    if alg == "padmm":
+        MA = np.asarray(G.op_dense(recipe["A"], [n])[0], dtype=np.float64)
+        p = MA.shape[0]
+        MB = -np.eye(p) if recipe["B"] is None else np.asarray(G.op_dense(recipe["B"], recipe["zshape"])[0], dtype=np.float64)
+        rho, mu, nu = float(recipe["rho"]), float(recipe["mu"]), float(recipe["nu"])
+        zs, us = A_(kkt["z"]), A_(kkt["u"])
+        nP = lambda a: rho * (mu * _sq(a) - _sq(MA @ a))  # noqa: E731
+        nQ = lambda bb: rho * (nu * _sq(bb) - _sq(MB @ bb))  # noqa: E731
+
+        def Psi(st):
+            return (rho * _sq(A_(st["u"]) - us) + nP(A_(st["x"]) - xs) + rho * nu * _sq(A_(st["z"]) - zs)
+                    + nQ(A_(st["z"]) - A_(st["zold"])))
+
+        for k in range(1, len(states) - 1):
+            s0, s1 = states[k], states[k + 1]
+            diss = nP(A_(s1["x"]) - A_(s0["x"])) + rho * nu * _sq(A_(s1["z"]) - A_(s0["z"])) + rho * _sq(A_(s1["u"]) - A_(s0["u"]))
+            if Psi(s1) + diss > Psi(s0) + tol(Psi(s0)):
+                return {"quantity": "proximal-ADMM Lyapunov function Psi", "k": k, "Psi_before": Psi(s0), "Psi_after": Psi(s1),
+                        "dissipation": diss}
+        ctx.count("monotone:padmm-lyapunov-" + ("defaultB" if recipe["B"] is None else "generalB"))
+    if alg == "ladmm":
+        M = np.asarray(G.op_dense(recipe["C"], [n])[0], dtype=np.float64)
+        mu, nu = float(recipe["mu"]), float(recipe["nu"])
+        us = A_(kkt["u"])
+        zs = M @ xs
+
+        def V(st):
+            return (_sq(A_(st["u"]) - us) + _sq(A_(st["z"]) - zs)) / nu + _sq(A_(st["x"]) - xs) / mu - _sq(M @ (A_(st["x"]) - xs)) / nu
+
+        for k in range(1, len(states) - 1):
+            s0, s1 = states[k], states[k + 1]
+            dx = A_(s1["x"]) - A_(s0["x"])
+            diss = _sq(dx) / mu - _sq(M @ dx) / nu + (_sq(A_(s1["z"]) - A_(s0["z"])) + _sq(A_(s1["u"]) - A_(s0["u"]))) / nu
+            if V(s1) + diss > V(s0) + tol(V(s0)):
+                return {"quantity": "linearized-ADMM Lyapunov function V", "k": k, "V_before": V(s0), "V_after": V(s1),
+                        "dissipation": diss}
+        ctx.count("monotone:ladmm-lyapunov")
+    if alg == "apgm" and fobjs:
+        L = float(recipe["L0"])
+        Fs = objective_of(b, G.unflat(xs.tolist(), [n], False))
+        d0sq = _sq(A_(states[0]["x"]) - xs)
+        for k, Fk in enumerate(fobjs):  # fobjs[k] = F(x_{k+1})
+            bound = 2.0 * L * d0sq / (k + 2.0) ** 2
+            if np.isfinite(Fk) and Fk - Fs > bound + tol(bound):
+                return {"quantity": "FISTA rate F(x_k) - F(x*) <= 2 L |x0 - x*|^2 / (k+1)^2", "k": k + 1, "gap": Fk - Fs, "bound": bound}
+        ctx.count("monotone:fista-rate")
+    return None
+
+
 def corpus_cases():
     d = common.CORPUS_DIR / PROP
     out = []
@@ -452,15 +577,19 @@ BUDGET = {"admm": 300, "ladmm": 1500, "padmm": 3000, "nlpadmm": 3000, "pdhg": 20
 
 def one(ctx, model, rng, alg, recipe, kkt, xs, traj, tag):
     # non-linear C / H make the problem non-convex: only the fixed-point part of the property applies
+    nonconvex = False
     if alg == "pdhg" and recipe.get("nl") is not None:
-        traj = False
+        traj, nonconvex = False, True
     if alg == "nlpadmm" and any(recipe["H"]["q"]):
-        traj = False
+        traj, nonconvex = False, True
     ok = fixed_point_case(ctx, model, recipe, kkt)
     d0 = None
     if ok and traj:
         K = BUDGET[alg] if ctx.thorough else max(40, BUDGET[alg] // 4)
         d0 = trajectory_case(ctx, recipe, kkt, np.asarray(xs, dtype=np.float64), rng, K)
+    elif ok and not nonconvex:
+        # short trajectory: only the proved one-step inequalities (Lyapunov / Fejer / rate), no convergence budget
+        d0 = trajectory_case(ctx, recipe, kkt, np.asarray(xs, dtype=np.float64), rng, MONITOR, check_conv=False)
     key = G.describe({k: v for k, v in recipe.items() if not k.startswith("_")})
     nz = bool(np.any(np.asarray(xs) != 0))
     ctx.case({"config": key, "stream": tag, "trajectory": bool(traj)}, (key, tuple(np.asarray(xs).tolist())) if nz else None,
